@@ -1,8 +1,8 @@
-\* E0 thorough: Collection.tla, 3 datasets + 2 merge results, <=4 groups, 3 selections, 2 labels/colours, delay nesting 2.
+\* E0 thorough: Collection.tla, 3 datasets + 1 merge result, <=3 groups, 3 selections, 2 labels/colours, delay nesting 2.
 CONSTANTS
   Data = {"d1", "d2", "d3"}
-  Fresh <- c_Fresh2
-  MaxGroups = 4
+  Fresh <- c_Fresh1
+  MaxGroups = 3
   Row = {0, 1, 2}
   Sel <- c_Sel
   Label = {"A", "B"}
